@@ -1,571 +1,626 @@
 """C14 -- networking-thread exceptions are contained and routed like
-try/except.  Dominance, guard-function and rebinding relations on the CFGs
-of NetworkingThread.run and Connection._handle_exception."""
+try/except.  Decided on the path summaries (vp.pathsum) of
+NetworkingThread.run, Connection._handle_exception and
+register_exception_handler: which calls happen on which paths, with which
+arguments, under which decisions, and how each path ends."""
 import ast
 
 from ..common import AnalysisError, rel
 from ..callgraph import CallGraph
 from ..connmodel import ConnModel, CONN
-from ..cfg import cfg_of
-from ..fold import Folder, Instance, Opaque, FuncVal, Env, FoldRaise
-from .. import boolfn
+from .. import pathsum
+from ..pathsum import struct, show, is_const, subterms
 
 
 def run(report, db, tier):
     report.explanation = (
         'The routing of a fatal exception is a set of relations between '
-        'effects in run() and _handle_exception(): which store dominates '
-        'which call, which guard protects which stage, what an exceptional '
-        'edge rebinds, where the loop is left.  They are decided on the '
-        'control-flow graphs (with exception edges), not on the text.')
+        'effects in run() and _handle_exception(): which call precedes '
+        'which, under which decisions a stage runs, what a raising handler '
+        're-binds, how the loop is left and how the function ends.  They are '
+        'decided on path summaries: every path through the function '
+        '(helpers a later edit extracted are inlined, exceptions of calls '
+        'inside try blocks are followed into their handlers, the handler '
+        'loop is summarised by one symbolic iteration and its exits), with '
+        'values traced to terms over the parameters and decisions in a '
+        'normal form -- not on the spelling of the statements.')
     cg = CallGraph(db)
     M = ConnModel(db, cg)
-    containment(report, db, cg, M)
-    chain(report, db, cg, M)
-    registration(report, db, cg, M)
+    S = pathsum.PathSum(db, cg, inline_pred=pathsum.known_unit_pred())
+    containment(report, db, S, M)
+    chain(report, db, S, M)
+    registration(report, db, S, M)
 
 
-def calls_named(n, name):
-    return [c for c in (n.calls() if n.ast is not None else [])
-            if (isinstance(c.func, ast.Attribute) and c.func.attr == name)
-            or (isinstance(c.func, ast.Name) and c.func.id == name)]
+def sy(n):
+    return ('sym', n)
 
 
-def rebinds_both(g, handler_node, names):
-    """Every path out of the handler entry first passes a statement binding
-    all of `names`."""
-    stack = [s for s, _ in handler_node.succ]
-    seen = set()
-    while stack:
-        n = stack.pop()
-        if n in seen:
-            continue
-        seen.add(n)
-        a = n.ast
-        if isinstance(a, ast.Assign):
-            bound = set()
-            for t in a.targets:
-                for x in ast.walk(t):
-                    if isinstance(x, ast.Name):
-                        bound.add(x.id)
-            if set(names) <= bound:
-                continue
-        return False
-    return True
+def at(base, *names):
+    for n in names:
+        base = ('attr', base, n)
+    return base
+
+
+def caught_notes(p):
+    return [n for n in p.notes if n[0] == 'caught']
+
+
+def is_exc_info_call(t):
+    return isinstance(t, tuple) and t and t[0] == 'call' and \
+        t[1] == ('ext', 'sys.exc_info') and not t[2]
 
 
 # ---------------------------------------------------------------------------
-def containment(report, db, cg, M):
+def containment(report, db, S, M):
     R = report.rule('R14.1', 'containment: _run() and the exit callback run '
                     'inside a handler for Exception that first marks the '
-                    'thread interrupted, then dispatches; the slot is '
-                    'cleared in finally')
+                    'thread interrupted, then dispatches the caught '
+                    'exception with its exc_info; the exit callback runs '
+                    'only after _run() returned')
     run_ = M.method(M.thread, 'run')
-    g = cfg_of(run_)
-    live = g.reachable_nodes()
-    me = run_.params[0]
+    me = sy(run_.params[0])
+    paths = S.run(run_)
+    units = {}
+    for name, ci in (('_run', M.thread), ('_handle_exit', M.conn),
+                     ('_handle_exception', M.conn)):
+        units[name] = M.method(ci, name)
     for name in ('_run', '_handle_exit'):
-        nodes = [n for n in live if calls_named(n, name)]
-        if not nodes:
+        fi = units[name]
+        called = [e for p in paths for e in p.calls() if e.calls(fi)]
+        if not called:
             report.violation(R, 'contain:missing:%s' % name, run_.path,
                              run_.node, run_.qualname,
                              'run() never calls %s' % name)
             continue
-        for n in nodes:
-            hs = [s for s, l in n.succ if l == 'exc' and s.kind == 'handler']
-            caught = [h for h in hs if h.ast.type is not None and
-                      ast.unparse(h.ast.type) in ('Exception',
-                                                  'BaseException')]
-            esc = [s for s, l in n.succ if l == 'exc' and s is g.raise_exit]
-            if caught and not esc:
-                report.ok(R, '%s() is inside `except Exception`' % name)
-            else:
-                report.violation(R, 'contain:%s' % name, run_.path, n.ast,
-                                 run_.qualname, 'an exception from %s() is '
-                                 'not caught by the thread wrapper: it '
-                                 'escapes without being routed to the '
-                                 'handlers' % name)
-    # the exit callback runs only after _run returned normally
-    runs = [n for n in live if calls_named(n, '_run')]
-    exits = [n for n in live if calls_named(n, '_handle_exit')]
-    for e in exits:
-        if runs and all(g.dominates(r, e) for r in runs) and \
-                g.exists_path(g.entry, lambda x: x is e,
-                              avoid=lambda x: x in runs) is None:
-            report.ok(R, '_handle_exit() only after _run() returned')
+        nodes = set(id(e.node) for e in called)
+        escaped = [p for p in paths if p.raises and len(p.outcome) > 3
+                   and p.outcome[3] == 'implicit'
+                   and id(p.outcome[2]) in nodes]
+        routed = [p for p in paths if any(
+            id(n[3]) in nodes and any(e.calls(units['_handle_exception'])
+                                      for e in p.calls())
+            for n in caught_notes(p))]
+        if escaped or not routed:
+            report.violation(R, 'contain:%s' % name, run_.path,
+                             called[0].node, run_.qualname, 'an exception '
+                             'from %s() is not caught by the thread wrapper: '
+                             'it escapes without being routed to the '
+                             'handlers' % name)
         else:
-            report.violation(R, 'contain:exit-order', run_.path, e.ast,
-                             run_.qualname, 'the exit callback can run '
-                             'without _run() having finished normally')
-    he = [n for n in live if calls_named(n, '_handle_exception')]
-    if not he:
+            report.ok(R, '%s() is inside a handler that dispatches' % name)
+    # the exit callback runs only after _run returned normally
+    good = True
+    for p in paths:
+        evs = p.flat()
+        for i, e in enumerate(evs):
+            if not e.calls(units['_handle_exit']):
+                continue
+            before = [x for x in evs[:i] if x.calls(units['_run'])]
+            raised = set(id(n[3]) for n in caught_notes(p))
+            if not before or any(id(x.node) in raised for x in before):
+                good = False
+                report.violation(R, 'contain:exit-order', run_.path, e.node,
+                                 run_.qualname, 'the exit callback can run '
+                                 'without _run() having finished normally')
+    if good:
+        report.ok(R, '_handle_exit() only after _run() returned')
+    disp = [(p, e) for p in paths for e in p.calls()
+            if e.calls(units['_handle_exception'])]
+    if not disp:
         report.violation(R, 'contain:no-dispatch', run_.path, run_.node,
                          run_.qualname, 'the wrapper never dispatches to '
                          '_handle_exception')
         return
-    for n in he:
-        marks = [m for m in live if isinstance(m.ast, ast.Assign) and any(
-            isinstance(t, ast.Attribute) and t.attr == 'interrupt'
-            and isinstance(t.value, ast.Name) and t.value.id == me
-            for t in m.ast.targets) and isinstance(m.ast.value, ast.Constant)
-            and m.ast.value.value is True]
-        if marks and any(g.dominates(m, n) for m in marks):
-            report.ok(R, 'self.interrupt = True dominates the dispatch')
-        else:
-            report.violation(R, 'contain:interrupt-mark', run_.path, n.ast,
-                             run_.qualname, 'the thread does not mark '
-                             'itself interrupted before dispatching: a '
-                             'handler that reconnects is refused as "already '
-                             'running", and the connection is not closed')
-        c = calls_named(n, '_handle_exception')[0]
-        hname = None
-        for h in live:
-            if h.kind == 'handler' and h.ast.name:
-                hname = h.ast.name
-        if len(c.args) == 2 and isinstance(c.args[0], ast.Name) and \
-                c.args[0].id == hname and \
-                ast.unparse(c.args[1]) == 'sys.exc_info()':
-            report.ok(R, 'dispatch receives (e, sys.exc_info())')
-        else:
-            report.violation(R, 'contain:dispatch-args', run_.path, c,
-                             run_.qualname, 'the dispatch is not given the '
-                             'caught exception and its exc_info')
+    marked = args_ok = True
+    site = disp[0][1].node
+    for p, e in disp:
+        evs = p.flat()
+        i = evs.index(e)
+        if not any(x.kind == 'store' and struct(x.base) == me
+                   and x.attr == 'interrupt' and x.value == ('const', True)
+                   for x in evs[:i]):
+            marked = False
+            site = e.node
+        cn = caught_notes(p)
+        args = list(e.args)
+        if args and struct(args[0]) == at(me, 'connection'):
+            args = args[1:]
+        if not (cn and len(args) == 2 and args[0] == cn[-1][2]
+                and is_exc_info_call(args[1])):
+            args_ok = False
+            site = e.node
+    if marked:
+        report.ok(R, 'self.interrupt = True precedes the dispatch on every '
+                  'path')
+    else:
+        report.violation(R, 'contain:interrupt-mark', run_.path, site,
+                         run_.qualname, 'the thread does not mark itself '
+                         'interrupted before dispatching: a handler that '
+                         'reconnects is refused as "already running", and '
+                         'the connection is not closed')
+    if args_ok:
+        report.ok(R, 'dispatch receives (e, sys.exc_info())')
+    else:
+        report.violation(R, 'contain:dispatch-args', run_.path, site,
+                         run_.qualname, 'the dispatch is not given the '
+                         'caught exception and its exc_info')
 
 
 # ---------------------------------------------------------------------------
-def chain(report, db, cg, M):
-    R2 = report.rule('R14.2', 'first match wins: guarded handler call; '
+def handler_list_attr(S, M):
+    """The attribute register_exception_handler mutates."""
+    reg = M.conn_method('register_exception_handler')
+    me = sy(reg.params[0])
+    attrs = set()
+    for p in S.run(reg):
+        for e in p.calls():
+            if e.fn[0] == 'attr' and e.fn[2] in ('append', 'insert') and \
+                    e.fn[1][0] == 'attr' and struct(e.fn[1][1]) == me:
+                attrs.add(e.fn[1][2])
+    return reg, attrs
+
+
+def fh_state(p, fh):
+    """What the path knows about the final handler: 'none', 'false',
+    'callable', 'unset' (None or False) or None (nothing)."""
+    is_none = is_false = member = None
+    for a, pol, _ in p.conds:
+        if a[1] == 'is' and struct(a[2][0]) == fh and is_const(a[2][1]):
+            if a[2][1][1] is None:
+                is_none = pol
+            elif a[2][1][1] is False:
+                is_false = pol
+        elif a[1] == 'in' and struct(a[2][0]) == fh and a[2][1][0] in (
+                'tuple', 'list', 'set') and set(a[2][1][1]) == {
+                    ('const', None), ('const', False)}:
+            member = pol
+        elif a[1] == 'truth' and struct(a[2][0]) == fh:
+            # `if final_handler:` -- None and False are both falsy
+            if pol:
+                member = False
+    if is_none is True:
+        return 'none'
+    if is_false is True:
+        return 'false'
+    if member is False or (is_none is False and is_false is False):
+        return 'callable'
+    if member is True:
+        if is_none is False:
+            return 'false'
+        if is_false is False:
+            return 'none'
+        return 'unset'
+    if is_none is False:
+        return 'not-none'
+    return None
+
+
+def chain(report, db, S, M):
+    R0 = report.rule('R14.0', 'the reactor\'s own handler goes first; a true '
+                     'result ends the dispatch')
+    R2 = report.rule('R14.2', 'first match wins: the handlers are tried in '
+                     'list order, a handler is called only when its types '
+                     'are empty or match, with the current exception; '
                      'normal completion leaves the loop; a raising handler '
-                     'rebinds exc and exc_info and falls through')
+                     're-binds exc and exc_info and the loop goes on')
     R3 = report.rule('R14.3', 'the final handler stage runs after the loop '
-                     'on both exits, guarded only by `not in (None, False)`; '
-                     'an exception from it replaces the current one')
+                     'on both exits, exactly when the final handler is not '
+                     'None/False, with the current exception; an exception '
+                     'from it replaces the current one')
     R4 = report.rule('R14.4', 'the recorded exception is the current '
                      '(exc, exc_info), stored after the final stage')
     R5 = report.rule('R14.5', 'the connection is closed unless a handler '
                      'started a new one (interrupt flag of the newest slot)')
     R6 = report.rule('R14.6', 're-raise iff no final handler is configured '
                      'and nothing caught the exception')
-    R0 = report.rule('R14.0', 'the reactor\'s own handler goes first; a true '
-                     'result ends the dispatch')
     he = M.conn_method('_handle_exception')
-    g = cfg_of(he)
-    live = g.reachable_nodes()
-    me, exc, exc_info = he.params[0], he.params[1], he.params[2]
+    me = sy(he.params[0])
+    p_exc, p_info = sy(he.params[1]), sy(he.params[2])
+    fh = at(me, 'handle_exception')
+    reg, attrs = handler_list_attr(S, M)
+    if len(attrs) != 1:
+        raise AnalysisError('register_exception_handler: expected one '
+                            'handler list, found %s' % sorted(attrs),
+                            reg.node, rel(reg.path))
+    lattr = sorted(attrs)[0]
+    paths = S.run(he)
+    report.note('paths', '%s: %d paths' % (he.qualname, len(paths)))
+    disconnect = M.conn_method('disconnect')
 
-    # ---- reactor stage
-    rh = [n for n in live if calls_named(n, 'handle_exception')
-          and 'reactor' in ast.unparse(n.ast)]
-    if rh and rh[0].kind == 'test':
-        t = rh[0]
-        tr = [s for s, l in t.succ if l == 'true']
-        hs = [s for s, l in t.succ if l == 'exc' and s.kind == 'handler']
-        if tr and all(isinstance(s.ast, ast.Return) for s in tr):
-            report.ok(R0, 'reactor.handle_exception(...) true -> return')
-        else:
-            report.violation(R0, 'reactor-stage:return', he.path, t.ast,
-                             he.qualname, 'a reactor that handled the '
-                             'exception does not end the dispatch')
-        if hs and all(rebinds_both(g, h, (exc, exc_info)) for h in hs):
-            report.ok(R0, 'a raising reactor handler replaces exc and '
-                      'exc_info')
-        else:
-            report.violation(R0, 'reactor-stage:rebind', he.path, t.ast,
-                             he.qualname, 'an exception raised by the '
-                             'reactor\'s handler does not replace both exc '
-                             'and exc_info')
-    else:
-        report.violation(R0, 'reactor-stage:missing', he.path, he.node,
-                         he.qualname, 'the reactor\'s handle_exception is '
-                         'not consulted first')
-
-    # ---- the handler loop: the loop whose body calls its loop variable
-    fors = [n for n in live if n.kind == 'for']
-    head = None
-    hvar = tvar = None
-    for cand in fors:
-        tg = cand.ast.target
-        names = [tg.id] if isinstance(tg, ast.Name) else (
-            [e.id for e in tg.elts if isinstance(e, ast.Name)]
-            if isinstance(tg, ast.Tuple) else [])
-        inner = [n for n in live if cand.ast in n.loops]
-        for nm in names:
-            if any(isinstance(c.func, ast.Name) and c.func.id == nm
-                   for n in inner for c in n.calls()):
-                head, hvar = cand, nm
-                rest = [x for x in names if x != nm]
-                tvar = rest[0] if rest else None
-    if head is None:
-        raise AnalysisError('_handle_exception: handler loop not found',
-                            he.node, rel(he.path))
-    loop = head.ast
-    body = [n for n in live if loop in n.loops]
-    hcalls = [n for n in body if any(
-        isinstance(c.func, ast.Name) and c.func.id == hvar
-        for c in n.calls())]
-    if len(hcalls) != 1:
-        report.violation(R2, 'chain:handler-call', he.path, loop,
-                         he.qualname, 'expected exactly one call of the '
-                         'registered handler per iteration, found %d'
-                         % len(hcalls))
-        return
-    hc = hcalls[0]
-    call = [c for c in hc.calls() if isinstance(c.func, ast.Name)
-            and c.func.id == hvar][0]
-    if [ast.unparse(a) for a in call.args] == [exc, exc_info]:
-        report.ok(R2, 'handler(exc, exc_info) receives the current pair')
-    else:
-        report.violation(R2, 'chain:handler-args', he.path, call,
-                         he.qualname, 'the handler is not called with the '
-                         'current (exc, exc_info)')
-    # guard = not types or isinstance(exc, types), evaluated per handler
-    # against the *current* exception
-    conds = [(e, t) for e, t in boolfn.path_conditions(g, hc)
-             if 'isinstance' in ast.unparse(e)
-             or (tvar and tvar in ast.unparse(e))]
-    guard = False
-    if tvar is not None:
-        ref = ast.parse('not %s or isinstance(%s, %s)' % (tvar, exc, tvar),
-                        mode='eval').body
-        guard = bool(conds) and boolfn.same_function(_conj(conds), ref)
-    if guard:
-        report.ok(R2, 'guard: not types or isinstance(exc, types)')
-    else:
-        report.violation(R2, 'chain:guard', he.path, hc.ast, he.qualname,
-                         'the handler call is not guarded, inside the loop, '
-                         'by `not exc_types or isinstance(exc, exc_types)` '
-                         'of that handler (found: %s): filters are not '
-                         'matched against the exception each handler '
-                         'actually receives'
-                         % (ast.unparse(_conj(conds)) if conds else 'none'))
-    # after a handler raised, the replacement must pass the next handler's
-    # own filter: no path from the rebinding to a handler call that skips an
-    # isinstance test of the current exception
-    rebinds = [s2 for s2, l in hc.succ if l == 'exc' and s2.kind == 'handler']
-    tests_ = [n for n in body if n.kind == 'test'
-              and 'isinstance(%s' % exc in ast.unparse(n.ast)]
-    for rb in rebinds:
-        if g.exists_path(rb, lambda n: n is hc,
-                         avoid=lambda n: n in tests_) is not None:
-            report.violation(R2, 'chain:stale-filter', he.path, rb.ast,
-                             he.qualname, 'after a handler raised, the '
-                             'replacement exception reaches the next handler '
-                             'without that handler\'s type filter being '
-                             'evaluated against it')
+    def is_rx(e):
+        return e.kind == 'call' and e.fn[0] in ('attr', 'fn') and \
+            e.method() == 'handle_exception' and (
+                (e.fn[0] == 'attr' and struct(e.fn[1]) == at(me, 'reactor'))
+                or (e.fn[0] == 'fn' and struct(e.fn[2]) == at(me,
+                                                              'reactor')))
+    # -- R14.0 ---------------------------------------------------------------
+    bad0 = None
+    n_early = 0
+    rest = []
+    for p in paths:
+        evs = p.flat(('call', 'store', 'loop'))
+        if not evs or not is_rx(evs[0]):
+            bad0 = 'the reactor\'s handler is not the first thing consulted'
             break
-    else:
-        if rebinds:
-            report.ok(R2, 'a replacement exception is re-matched against '
-                      'each later handler\'s filter')
-    # normal completion leaves the loop
-    back = g.exists_path(hc, lambda n: n is head,
-                         labels=('next', 'true', 'false', 'continue',
-                                 'break'))
-    if back is None:
-        report.ok(R2, 'after a handler returns normally the loop is left')
-    else:
-        report.violation(R2, 'chain:no-break', he.path, hc.ast, he.qualname,
-                         'after a handler caught the exception the loop '
-                         'goes on: later matching handlers also receive an '
-                         'exception that was already handled')
-    # exceptional edge: caught, rebinds both, continues with next handler
-    hs = [s for s, l in hc.succ if l == 'exc' and s.kind == 'handler']
-    esc = [s for s, l in hc.succ if l == 'exc' and s is g.raise_exit]
-    if not hs or esc:
-        report.violation(R2, 'chain:handler-raises', he.path, hc.ast,
-                         he.qualname, 'an exception raised inside a handler '
-                         'is not caught: it cannot be offered to later '
-                         'handlers')
-    else:
-        if all(rebinds_both(g, h, (exc, exc_info)) for h in hs):
-            report.ok(R2, 'a raising handler rebinds exc and exc_info')
-        else:
-            report.violation(R2, 'chain:rebind', he.path, hs[0].ast,
-                             he.qualname, 'an exception raised inside a '
-                             'handler does not replace both exc and '
-                             'exc_info: later handlers and the record see a '
-                             'mismatched pair')
-        if all(g.exists_path(h, lambda n: n is head) for h in hs):
-            report.ok(R2, 'after a raising handler the loop continues')
-        else:
-            report.violation(R2, 'chain:no-fallthrough', he.path, hs[0].ast,
-                             he.qualname, 'after a handler raised, later '
-                             'handlers are not tried')
-
-    # ---- final handler stage
-    fh = None
-    for st in he.body:
-        if isinstance(st, ast.Assign) and len(st.targets) == 1 and \
-                isinstance(st.targets[0], ast.Name) and \
-                ast.unparse(st.value) == '%s.handle_exception' % me:
-            fh = st.targets[0].id
-    if fh is None:
-        raise AnalysisError('_handle_exception: local for the final '
-                            'handler not found', he.node, rel(he.path))
-    fcalls = [n for n in live if any(isinstance(c.func, ast.Name)
-                                     and c.func.id == fh for c in n.calls())]
-    if len(fcalls) != 1:
-        report.violation(R3, 'final:call-sites', he.path, he.node,
-                         he.qualname, 'expected one call of the final '
-                         'handler, found %d' % len(fcalls))
-        return
-    fc = fcalls[0]
-    fcond = boolfn.path_conditions(g, fc)
-    fcond = [(e, t) for e, t in fcond if loop not in
-             [getattr(x, 'note', None) for x in ()]]
-    own = [(e, t) for e, t in fcond if fh in ast.unparse(e)]
-    other = [(e, t) for e, t in fcond if fh not in ast.unparse(e)
-             and 'reactor' not in ast.unparse(e)]
-    ref = ast.parse('%s not in (None, False)' % fh, mode='eval').body
-    ref2 = ast.parse('%s is not None and %s is not False' % (fh, fh),
-                     mode='eval').body
-    if own and (boolfn.same_function(_conj(own), ref) or
-                boolfn.same_function(_conj(own), ref2)) and not other:
-        report.ok(R3, 'final handler guarded only by `%s not in (None, '
-                  'False)`' % fh)
-    else:
-        report.violation(R3, 'final:guard', he.path, fc.ast, he.qualname,
-                         'the final handler does not always run when one is '
-                         'configured: it is guarded by [%s]' % ast.unparse(
-                             _conj(fcond)) if fcond else 'nothing')
-    # reachable after the loop on both exits: the guard test post-dominates
-    # the loop head (normal paths)
-    ftests = [n for n in live if n.kind == 'test' and fh in ast.unparse(
-        n.ast) and g.dominates(n, fc)]
-    if ftests and g.postdominates(ftests[0], head, include_raise=False):
-        report.ok(R3, 'final stage follows the loop on the break exit and '
-                  'on exhaustion')
-    else:
-        report.violation(R3, 'final:not-always', he.path, fc.ast,
-                         he.qualname, 'a way out of the handler loop skips '
-                         'the final handler stage')
-    fhs = [s for s, l in fc.succ if l == 'exc' and s.kind == 'handler']
-    if fhs and all(rebinds_both(g, h, (exc, exc_info)) for h in fhs) and \
-            not [s for s, l in fc.succ if l == 'exc' and s is g.raise_exit]:
-        report.ok(R3, 'an exception from the final handler replaces exc and '
-                  'exc_info')
-    else:
-        report.violation(R3, 'final:raises', he.path, fc.ast, he.qualname,
-                         'an exception raised by the final handler is not '
-                         'caught and recorded as the current exception')
-    if [ast.unparse(a) for a in [c for c in fc.calls() if isinstance(
-            c.func, ast.Name) and c.func.id == fh][0].args] != [exc,
-                                                               exc_info]:
-        report.violation(R3, 'final:args', he.path, fc.ast, he.qualname,
-                         'the final handler is not called with the current '
-                         '(exc, exc_info)')
-
-    # ---- record
-    rec = [n for n in live if isinstance(n.ast, ast.Assign) and
-           {'exception', 'exc_info'} <= set(
-               x.attr for t in n.ast.targets for x in ast.walk(t)
-               if isinstance(x, ast.Attribute) and isinstance(
-                   x.value, ast.Name) and x.value.id == me)]
-    if len(rec) != 1:
-        report.violation(R4, 'record:missing', he.path, he.node, he.qualname,
-                         'the last exception is not stored on the '
-                         'connection as (exception, exc_info) in one place')
-    else:
-        r = rec[0]
-        tg = ast.unparse(r.ast.targets[0]).replace(' ', '')
-        vl = ast.unparse(r.ast.value).replace(' ', '')
-        want_t = '%s.exception,%s.exc_info' % (me, me)
-        if tg.strip('()') == want_t and vl.strip('()') == '%s,%s' % (
-                exc, exc_info):
-            report.ok(R4, 'self.exception, self.exc_info = exc, exc_info')
-        else:
-            report.violation(R4, 'record:pairing', he.path, r.ast,
-                             he.qualname, 'recorded pair is %s = %s' % (tg,
-                                                                        vl))
-        if ftests and g.dominates(ftests[0], r) and \
-                g.exists_path(r, lambda n: n is fc) is None:
-            report.ok(R4, 'the record follows the final stage')
-        else:
-            report.violation(R4, 'record:early', he.path, r.ast, he.qualname,
-                             'the exception is recorded before the final '
-                             'handler could replace it')
-        if g.postdominates(r, head, include_raise=False):
-            report.ok(R4, 'the record is reached on every path after the '
-                      'loop')
-        else:
-            report.violation(R4, 'record:skipped', he.path, r.ast,
-                             he.qualname, 'a path after the handler loop '
-                             'does not record the exception')
-
-    # ---- close unless a handler reconnected
-    dcs = [n for n in live if calls_named(n, 'disconnect')]
-    if len(dcs) != 1:
-        report.violation(R5, 'close:sites', he.path, he.node, he.qualname,
-                         'expected one disconnect() in the dispatch, found '
-                         '%d' % len(dcs))
-    else:
-        d = dcs[0]
-        c = calls_named(d, 'disconnect')[0]
-        imm = any(k.arg == 'immediate' and isinstance(k.value, ast.Constant)
-                  and k.value.value is True for k in c.keywords) or (
-                      c.args and isinstance(c.args[0], ast.Constant)
-                      and c.args[0].value is True)
-        if imm:
-            report.ok(R5, 'disconnect(immediate=True)')
-        else:
-            report.violation(R5, 'close:not-immediate', he.path, c,
-                             he.qualname, 'the failed connection is flushed '
-                             'instead of being closed immediately')
-        conds = [(e, t) for e, t in boolfn.path_conditions(g, d)
-                 if 'interrupt' in ast.unparse(e)]
-        ref = '(%s.new_networking_thread or %s.networking_thread).interrupt' \
-            % (me, me)
-        if len(conds) == 1 and conds[0][1] and \
-                ast.unparse(conds[0][0]).replace(' ', '') == \
-                ref.replace(' ', ''):
-            report.ok(R5, 'guarded by the interrupt flag of the newest '
-                      'thread slot')
-        else:
-            report.violation(R5, 'close:guard', he.path, d.ast, he.qualname,
-                             'the close is not guarded by the interrupt '
-                             'flag of the newest thread slot (new thread if '
-                             'any, else current): found [%s]' % (
-                                 ast.unparse(_conj(conds)) if conds else
-                                 'unguarded'))
-        if rec and g.exists_path(d, lambda n: n is rec[0]) is not None:
-            report.violation(R5, 'close:before-record', he.path, d.ast,
-                             he.qualname, 'the connection is closed before '
-                             'the exception is recorded')
-
-    # ---- re-raise
-    raises = [n for n in live if isinstance(n.ast, ast.Raise)]
-    if len(raises) != 1:
-        report.violation(R6, 'reraise:sites', he.path, he.node, he.qualname,
-                         'expected one terminal re-raise, found %d'
-                         % len(raises))
-        return
-    rz = raises[0]
-    conds = [(e, t) for e, t in boolfn.path_conditions(g, rz)
-             if 'reactor' not in ast.unparse(e)
-             and 'interrupt' not in ast.unparse(e)]
-    flags = caught_flag(g, he, hc, head, loop)
-    if flags is None:
-        report.violation(R6, 'reraise:caught-flag', he.path, he.node,
-                         he.qualname, 'no flag that is true exactly when a '
-                         'handler completed normally (break exit) and false '
-                         'on exhaustion')
-        return
-    ref = ast.parse('%s is None and not %s' % (fh, flags), mode='eval').body
-    if conds and boolfn.same_function(_conj(conds), ref):
-        report.ok(R6, 're-raise iff %s is None and not %s' % (fh, flags))
-    else:
-        report.violation(R6, 'reraise:guard', he.path, rz.ast, he.qualname,
-                         'the exception is re-raised under [%s]; it must be '
-                         'exactly `%s is None and not %s`' % (
-                             ast.unparse(_conj(conds)) if conds else 'always',
-                             fh, flags))
-    if rec and g.exists_path(rz, lambda n: n is rec[0]) is None and \
-            g.dominates(rec[0], rz):
-        report.ok(R6, 'the re-raise comes after the record')
-    elif rec:
-        report.violation(R6, 'reraise:before-record', he.path, rz.ast,
-                         he.qualname, 're-raise can happen without the '
-                         'exception having been recorded')
-
-
-def _conj(conds):
-    parts = [e if t else ast.UnaryOp(op=ast.Not(), operand=e)
-             for e, t in conds]
-    if not parts:
-        return ast.Constant(value=True)
-    if len(parts) == 1:
-        return parts[0]
-    return ast.BoolOp(op=ast.And(), values=parts)
-
-
-def caught_flag(g, he, hc, head, loop):
-    """Name of a local set True right after the handler call on the
-    loop-leaving path and False in the loop's else branch."""
-    cands = {}
-    for n in g.reachable_nodes():
-        a = n.ast
-        if isinstance(a, ast.Assign) and len(a.targets) == 1 and \
-                isinstance(a.targets[0], ast.Name) and \
-                isinstance(a.value, ast.Constant) and \
-                isinstance(a.value.value, bool):
-            cands.setdefault(a.targets[0].id, []).append((n, a.value.value))
-    for name, sets in cands.items():
-        t = [n for n, v in sets if v]
-        f = [n for n, v in sets if not v]
-        if not t or not f:
+        rx = evs[0]
+        if [struct(a) for a in rx.args] != [p_exc, p_info]:
+            bad0 = 'the reactor\'s handler receives %s' % [
+                show(a) for a in rx.args]
+            break
+        truth = [pol for a, pol, _ in p.conds if a[1] == 'truth'
+                 and struct(a[2][0]) == struct(rx.res)]
+        raised = any(n[3] is rx.node for n in caught_notes(p))
+        escaped = p.raises and len(p.outcome) > 3 and \
+            p.outcome[2] is rx.node
+        if truth == [True]:
+            n_early += 1
+            if len(evs) > 1 or not p.returns:
+                bad0 = 'a true result of the reactor\'s handler does not ' \
+                    'end the dispatch'
+                break
             continue
-        # True: dominated by the handler call, on its normal continuation
-        ok_t = all(g.dominates(hc, n) and loop in n.loops for n in t)
-        # False: only reachable when the loop is exhausted (for-else), or
-        # initialised before the loop
-        ok_f = all((loop not in n.loops) for n in f)
-        if ok_t and ok_f:
-            # the False store must not be reachable after a True store
-            if any(g.exists_path(a, lambda x: x in f) for a in t):
+        if escaped:
+            bad0 = 'an exception of the reactor\'s handler escapes the ' \
+                'dispatch'
+            break
+        if not truth and not raised:
+            bad0 = 'the result of the reactor\'s handler is ignored'
+            break
+        if p.raises and len(p.outcome) > 3:
+            continue        # an exception nothing here is meant to catch
+        rest.append(p)
+    if bad0 or not n_early:
+        report.violation(R0, 'reactor-handler', he.path, he.node,
+                         he.qualname, bad0 or 'no path ends the dispatch on '
+                         'a true result of the reactor\'s handler')
+    else:
+        report.ok(R0, 'reactor.handle_exception(exc, exc_info) first; true '
+                  '-> return')
+    if not rest:
+        raise AnalysisError('_handle_exception: no path reaches the '
+                            'registered handlers', he.node, rel(he.path))
+    # -- R14.2 ---------------------------------------------------------------
+    prob2 = []
+    site2 = he.node
+    loops = {}
+    for p in rest:
+        ls = [e for e in p.events if e.kind == 'loop']
+        if len(ls) != 1:
+            prob2.append('expected one loop over the registered handlers, '
+                         'found %d' % len(ls))
+            continue
+        loops[id(ls[0].node)] = ls[0]
+    cur_names = set()
+    for lp in loops.values():
+        site2 = lp.node
+        it = lp.ctx
+        while it[0] == 'op' and it[1] in ('list', 'tuple') and \
+                len(it[2]) == 1:
+            it = it[2][0]       # a snapshot keeps the order
+        if struct(it) != at(me, lattr):
+            prob2.append('the loop iterates %s, not self.%s in order'
+                         % (show(lp.ctx), lattr))
+            continue
+        n_match = 0
+        for bp in lp.paths:
+            calls = [e for e in bp.flat(('call',))
+                     if not is_exc_info_call(e.res)]
+            hcalls = [e for e in calls if e.fn[0] == 'op'
+                      and e.fn[1] == 'index' and e.fn[2][0][0] == 'elem'
+                      and e.fn[2][1] == ('const', 0)]
+            if len(hcalls) != len(calls):
+                prob2.append('the loop body calls %s' % [
+                    show(e.fn) for e in calls if e not in hcalls])
                 continue
-            return name
-    return None
+            # decisions about the types of this entry
+            nonempty = inst = None
+            inst_arg = None
+            for a, pol, _ in bp.conds:
+                if a[1] == 'truth' and a[2][0][0] == 'op' and \
+                        a[2][0][1] == 'index' and a[2][0][2][0][0] == 'elem' \
+                        and a[2][0][2][1] == ('const', 1):
+                    nonempty = pol
+                elif a[1] == 'isinstance' and a[2][1][0] == 'op' and \
+                        a[2][1][1] == 'index' and a[2][1][2][0][0] == 'elem' \
+                        and a[2][1][2][1] == ('const', 1):
+                    inst = pol
+                    inst_arg = a[2][0]
+            matches = (nonempty is False) or (nonempty is True
+                                              and inst is True)
+            if not hcalls:
+                if matches:
+                    prob2.append('a matching handler is not called [%s]'
+                                 % bp.cond_text())
+                if bp.outcome[0] == 'break' and len(bp.outcome) == 1:
+                    prob2.append('the loop is left without a handler '
+                                 'having completed')
+                continue
+            if len(hcalls) > 1:
+                prob2.append('a handler is called %d times in one '
+                             'iteration' % len(hcalls))
+                continue
+            hc = hcalls[0]
+            n_match += 1
+            if not matches:
+                prob2.append('a handler is called although its types do '
+                             'not match (decisions on the path: [%s]); it '
+                             'must be guarded by `not types or '
+                             'isinstance(exc, types)`' % bp.cond_text())
+                continue
+            if len(hc.args) != 2:
+                prob2.append('the handler receives %d arguments'
+                             % len(hc.args))
+                continue
+            a0, a1 = hc.args
+            if inst_arg is not None and struct(inst_arg) != struct(a0):
+                prob2.append('the type test is on %s but the handler gets '
+                             '%s' % (show(inst_arg), show(a0)))
+            raised = [n for n in bp.notes if n[0] == 'caught'
+                      and n[3] is hc.node]
+            if raised:
+                caught = raised[-1][2]
+                # the iteration must end with both variables re-bound
+                n0 = [k for k, v in bp.env.items() if v == caught
+                      and not k.startswith('<')]
+                n1 = [k for k, v in bp.env.items() if is_exc_info_call(v)]
+                ok0 = a0[0] == 'phi' and a0[1] in n0
+                ok1 = a1[0] == 'phi' and a1[1] in n1
+                if not (ok0 and ok1):
+                    prob2.append('a raising handler does not re-bind both '
+                                 'the exception and its exc_info for the '
+                                 'handlers that follow (passed: %s, %s; '
+                                 're-bound: %s, %s)' % (show(a0), show(a1),
+                                                        n0, n1))
+                else:
+                    cur_names.add((a0[1], a1[1]))
+                if bp.outcome[0] in ('break', 'return', 'raise'):
+                    prob2.append('a raising handler ends the loop')
+            else:
+                if not (bp.outcome[0] == 'break' and len(bp.outcome) == 1):
+                    prob2.append('normal completion of a handler does not '
+                                 'leave the loop: later handlers would run '
+                                 'as well')
+        if not n_match:
+            prob2.append('no iteration calls a handler')
+    if prob2:
+        report.violation(R2, 'handler-loop', he.path, site2, he.qualname,
+                         '; '.join(sorted(set(prob2))))
+    else:
+        report.ok(R2, 'loop over self.%s in order: guarded call with the '
+                  'current exception; return -> break; raise -> re-bind and '
+                  'go on' % lattr)
+    names = sorted(cur_names)[0] if len(cur_names) == 1 else None
+
+    def current(t, which):
+        """t denotes the current exception (which=0) / exc_info (1)"""
+        if t[0] == 'phi' and names and t[1] == names[which]:
+            return True
+        if struct(t) == (p_exc, p_info)[which]:
+            return True
+        if which == 0 and t[0] == 'exc':
+            return True
+        if which == 1 and is_exc_info_call(t):
+            return True
+        return False
+    # -- R14.3 / R14.4 / R14.5 / R14.6 -----------------------------------------
+    prob3, prob4, prob5, prob6 = [], [], [], []
+    seen3 = set()
+    seen6 = set()
+    for p in rest:
+        top = [e for e in p.events if e.kind in ('call', 'store', 'loop')]
+        li = [i for i, e in enumerate(top) if e.kind == 'loop']
+        if len(li) != 1:
+            continue
+        after = top[li[0] + 1:]
+        exhausted = any(n[0] == 'exhausted' for n in p.notes)
+        broke = any(n[0] == 'left-by-break' for n in p.notes)
+        state = fh_state(p, fh)
+        finals = [e for e in after if e.kind == 'call'
+                  and struct(e.fn) == fh]
+        done = p.returns or (p.raises and len(p.outcome) == 3)
+        # R14.3
+        if state == 'callable':
+            seen3.add(('callable', broke))
+            if len(finals) != 1:
+                prob3.append('the final handler is called %d times although '
+                             'it is set [%s]' % (len(finals), p.cond_text()))
+            elif not (len(finals[0].args) == 2
+                      and current(finals[0].args[0], 0)
+                      and current(finals[0].args[1], 1)):
+                prob3.append('the final handler receives %s' % [
+                    show(a) for a in finals[0].args])
+        elif state in ('none', 'false', 'unset'):
+            seen3.add((state, broke))
+            if finals:
+                prob3.append('the final handler is called although it is '
+                             '%s' % state)
+        elif finals:
+            prob3.append('the final handler is called without testing '
+                         'that it is neither None nor False [%s]'
+                         % p.cond_text())
+        elif done:
+            prob3.append('whether the final handler runs does not depend '
+                         'on it being set [%s]' % p.cond_text())
+        # R14.4
+        rec = {}
+        for e in after:
+            if e.kind == 'store' and struct(e.base) == me and e.attr in (
+                    'exception', 'exc_info'):
+                rec[e.attr] = e
+        if done:
+            if set(rec) != {'exception', 'exc_info'}:
+                prob4.append('the exception is not recorded on the path '
+                             '[%s]' % p.cond_text())
+            else:
+                want0 = want1 = None
+                fr = []
+                if finals:
+                    fr = [n for n in caught_notes(p)
+                          if n[3] is finals[0].node]
+                    if fr:
+                        want0 = fr[-1][2]
+                    elif len(finals[0].args) == 2:
+                        want0, want1 = finals[0].args
+                    if any(top.index(rec[k]) < top.index(finals[0])
+                           for k in rec):
+                        prob4.append('the exception is recorded before the '
+                                     'final handler ran: what the final '
+                                     'handler raises is lost')
+                v0, v1 = rec['exception'].value, rec['exc_info'].value
+                if want0 is not None and v0 != want0:
+                    prob4.append('self.exception = %s, not the current '
+                                 'exception %s' % (show(v0), show(want0)))
+                elif want0 is None and not current(v0, 0):
+                    prob4.append('self.exception = %s' % show(v0))
+                if want1 is not None and v1 != want1:
+                    prob4.append('self.exc_info = %s, not %s'
+                                 % (show(v1), show(want1)))
+                elif want1 is None and not current(v1, 1):
+                    prob4.append('self.exc_info = %s' % show(v1))
+                if fr and not is_exc_info_call(v1):
+                    prob4.append('after the final handler raised, '
+                                 'self.exc_info = %s' % show(v1))
+        # R14.5
+        closes = [e for e in after if e.kind == 'call'
+                  and e.calls(disconnect)]
+        nnt = at(me, 'new_networking_thread')
+        nt = at(me, 'networking_thread')
+        has_new = None
+        flags = {}
+        for a, pol, _ in p.conds:
+            if a[1] == 'truth' and struct(a[2][0]) == nnt:
+                has_new = pol
+            elif a[1] == 'is' and struct(a[2][0]) == nnt and \
+                    a[2][1] == ('const', None):
+                has_new = not pol
+            elif a[1] == 'truth' and a[2][0][0] == 'attr' and \
+                    a[2][0][2] == 'interrupt':
+                flags[struct(a[2][0][1])] = pol
+        if done:
+            slot = nnt if has_new else nt if has_new is False else None
+            if slot is None or slot not in flags or len(flags) != 1:
+                prob5.append('the close is not decided by the interrupt '
+                             'flag of the newest thread slot (new thread if '
+                             'any, else current): decisions [%s]'
+                             % p.cond_text())
+            elif bool(closes) != flags[slot]:
+                prob5.append('the connection is %s although the newest '
+                             'thread\'s interrupt flag is %s' % (
+                                 'closed' if closes else 'left open',
+                                 flags[slot]))
+            for c in closes:
+                kw = dict(c.kwargs)
+                pos = [a for a in c.args if struct(a) != me]
+                imm = kw.get('immediate', pos[0] if pos else None)
+                if imm != ('const', True):
+                    prob5.append('the close is not immediate')
+        # R14.6
+        should = (state == 'none') and exhausted and not broke
+        if p.raises and len(p.outcome) == 3:
+            seen6.add(True)
+            if not should:
+                prob6.append('re-raises when the final handler is %s and '
+                             'the exception was %s' % (
+                                 state, 'caught' if broke else 'not caught'))
+            v = p.outcome[1]
+            if not (v[0] == 'call' and v[1][0] == 'attr'
+                    and v[1][2] == 'with_traceback'):
+                prob6.append('re-raises %s' % show(v))
+            else:
+                src = v[1][1]
+                tb = v[2][0] if v[2] else None
+                if not (src[0] == 'op' and src[1] == 'index' and
+                        src[2][1] == ('const', 1) and current(src[2][0], 1)
+                        and tb is not None and tb[0] == 'op'
+                        and tb[1] == 'index' and tb[2][1] == ('const', 2)
+                        and tb[2][0] == src[2][0]):
+                    prob6.append('re-raises %s' % show(v))
+        elif p.returns:
+            seen6.add(False)
+            if should:
+                prob6.append('swallows the exception although no final '
+                             'handler is configured and nothing caught it')
+    if not {('callable', True), ('callable', False)} <= seen3 and not prob3:
+        prob3.append('the final stage is not reached on both exits of the '
+                     'loop (%s)' % sorted(seen3))
+    if seen6 != {True, False} and not prob6:
+        prob6.append('re-raise and swallow are not both possible')
+    for R, key, prob, good in (
+            (R3, 'final-stage', prob3, 'final handler called with the '
+             'current exception iff it is neither None nor False, on both '
+             'loop exits'),
+            (R4, 'record', prob4, 'self.exception / self.exc_info = current '
+             'pair, after the final stage'),
+            (R5, 'close', prob5, 'disconnect(immediate=True) iff the newest '
+             'slot\'s interrupt flag is set'),
+            (R6, 'reraise', prob6, 're-raise iff final handler is None and '
+             'the loop was exhausted')):
+        if prob:
+            report.violation(R, key, he.path, he.node, he.qualname,
+                             '; '.join(sorted(set(prob))[:4]))
+        else:
+            report.ok(R, good)
 
 
 # ---------------------------------------------------------------------------
-def registration(report, db, cg, M):
+def registration(report, db, S, M):
     R = report.rule('R14.7', 'registration order: early=True inserts before '
                     'all existing handlers, otherwise appends')
-    reg = M.conn_method('register_exception_handler')
-    he = M.conn_method('_handle_exception')
-    attrs = set()
-    for n in ast.walk(reg.node):
-        if isinstance(n, ast.Call) and isinstance(n.func, ast.Attribute) and \
-                n.func.attr in ('append', 'insert') and isinstance(
-                    n.func.value, ast.Attribute) and isinstance(
-                        n.func.value.value, ast.Name) and \
-                n.func.value.value.id == reg.params[0]:
-            attrs.add(n.func.value.attr)
-    used = set(n.attr for n in ast.walk(he.node)
-               if isinstance(n, ast.Attribute) and isinstance(n.value,
-                                                              ast.Name)
-               and n.value.id == he.params[0])
-    if len(attrs) != 1 or not attrs <= used:
+    reg, attrs = handler_list_attr(S, M)
+    if len(attrs) != 1:
         report.violation(R, 'register-handler:list', reg.path, reg.node,
-                         reg.qualname, 'handlers are registered in %s but '
-                         'the dispatch reads %s' % (sorted(attrs),
-                                                    sorted(used)))
+                         reg.qualname, 'handlers are registered in %s'
+                         % sorted(attrs))
         return
-    attr = attrs.pop()
-    F = Folder(db)
-    for early in (False, True):
-        lst = ['<first>', '<second>']
-        inst = Instance(M.conn, {attr: lst})
-        kw = {'early': True} if early else {}
-        try:
-            F.call_func(FuncVal(reg, bound=inst),
-                        [Opaque('handler'), ExcT], kw, reg.node,
-                        Env(reg.module))
-        except FoldRaise as e:
-            report.violation(R, 'register-handler:raises:%s' % early,
-                             reg.path, reg.node, reg.qualname,
-                             'registration raises %s' % e.exc_type)
+    attr = sorted(attrs)[0]
+    me = sy(reg.params[0])
+    lst = at(me, attr)
+    a = reg.node.args
+    hparam = reg.params[1]
+    tparam = a.vararg.arg if a.vararg else None
+    seen = {}
+    prob = []
+    for p in S.run(reg):
+        if not p.returns:
             continue
-        if len(lst) != 3:
-            report.violation(R, 'register-handler:count:%s' % early,
-                             reg.path, reg.node, reg.qualname,
-                             'registration adds %d entries to %s' % (
-                                 len(lst) - 2, attr))
+        adds = [e for e in p.calls() if e.fn[0] == 'attr'
+                and struct(e.fn[1]) == lst and e.fn[2] in (
+                    'append', 'insert', 'extend', 'appendleft')]
+        early = None
+        for c, pol, _ in p.conds:
+            if c[1] == 'truth':
+                t = c[2][0]
+                if any(x == ('const', 'early') for x in subterms(t)) or \
+                        struct(t) == sy('early'):
+                    early = pol
+        if early is None:
+            prob.append('the position does not depend on `early`')
             continue
-        pos = 0 if early else 2
-        new = lst[pos]
-        rest = lst[1:] if early else lst[:2]
-        if rest == ['<first>', '<second>'] and isinstance(new, tuple) and \
-                len(new) == 2 and isinstance(new[0], Opaque) and \
-                new[1] == (ExcT,):
-            report.ok(R, 'early=%s -> %s' % (early, 'insert at 0' if early
-                                             else 'append'))
+        if len(adds) != 1:
+            prob.append('early=%s adds %d entries' % (early, len(adds)))
+            continue
+        e = adds[0]
+        if e.fn[2] == 'append':
+            pos, entry = 'last', e.args[0] if e.args else None
+        elif e.fn[2] == 'insert' and len(e.args) == 2 and \
+                e.args[0] == ('const', 0):
+            pos, entry = 'first', e.args[1]
         else:
-            report.violation(R, 'register-handler:order:%s' % early,
-                             reg.path, reg.node, reg.qualname,
-                             'with early=%s the handler list becomes %r: the '
-                             'new (handler, types) pair must be %s'
-                             % (early, lst, 'first' if early else 'last'))
-
-
-ExcT = 'ValueError'
+            pos, entry = repr(e), None
+        seen[early] = pos
+        if entry is None or entry[0] != 'tuple' or len(entry[1]) != 2 or \
+                struct(entry[1][0]) != sy(hparam) or (
+                    tparam and struct(entry[1][1]) != sy('*' + tparam)):
+            prob.append('the registered entry is %s, not (handler, types)'
+                        % (show(entry) if entry else None))
+    if seen != {True: 'first', False: 'last'} and not prob:
+        prob.append('early handlers go %s, others %s; early=True must '
+                    'insert at 0 and the default must append' % (
+                        seen.get(True), seen.get(False)))
+    if prob:
+        report.violation(R, 'register-handler:order', reg.path, reg.node,
+                         reg.qualname, '; '.join(sorted(set(prob))))
+    else:
+        report.ok(R, 'early=True -> insert at 0; otherwise append; entry = '
+                  '(handler, types)')
